@@ -783,14 +783,8 @@ func c03r4(c *core.Ctx) {
 			c.Undecided("Connection."+spec.name, token.NoPos, "not found")
 			continue
 		}
-		isGetter := func(v ssa.Value) bool {
-			for _, s := range core.Sources(v) {
-				if call, ok := s.(*ssa.Call); ok && core.Callee(call) != nil && cn(core.Callee(call)) == spec.getter {
-					return true
-				}
-			}
-			return false
-		}
+		method := map[string]string{"getDecrypter": "Decrypter", "getEncrypter": "Encrypter"}[spec.getter]
+		isGetter := func(v ssa.Value) bool { return cryptoQuery(v, spec.getter, method) }
 		nonNil := core.NonNilFact(isGetter)
 		isNil := core.IsNilFact(isGetter)
 		encSites := core.FindCalls(f, func(i ssa.Instruction) bool { return core.Callee(i) != nil && cn(core.Callee(i)) == spec.enc })
@@ -937,4 +931,38 @@ func verifySessionFreshPerStart(p *core.Program) bool {
 		}
 	}
 	return ok && n > 0
+}
+
+// cryptoQuery: v is what the connection's session answers to Decrypter() / Encrypter() at this moment (or nil when there is no
+// session): the result of the getter under its reference name, of the Session method itself (the getter written out or inlined),
+// or of another module function that returns nothing else (the getter under another name and parameter list).
+func cryptoQuery(v ssa.Value, getter, method string) bool {
+	found := false
+	for _, s := range core.Sources(v) {
+		if core.IsNilConst(s) {
+			continue
+		}
+		call, ok := s.(*ssa.Call)
+		if !ok {
+			return false
+		}
+		switch {
+		case core.IsInvoke(call, qSession, method):
+			found = true
+		case core.Callee(call) != nil && cn(core.Callee(call)) == getter:
+			found = true
+		case core.Callee(call) != nil && core.InModule(core.Callee(call)) && core.Callee(call).Blocks != nil &&
+			returnsOnly(core.Callee(call), func(r ssa.Value) bool {
+				if core.IsNilConst(r) {
+					return true
+				}
+				rc, ok := r.(*ssa.Call)
+				return ok && core.IsInvoke(rc, qSession, method)
+			}):
+			found = true
+		default:
+			return false
+		}
+	}
+	return found
 }
